@@ -20,8 +20,8 @@
     item of [items] for the value [a] with the formatter and runs [unambiguous_ws_b]. *)
 From Coq Require Import ZArith List Bool.
 From V Require Import Base.Int Base.IO Base.Utf8 Model.Scan Model.Items Model.Parse
-  Proofs.Utf8 Proofs.Scan Proofs.C13 Proofs.C13Reads Proofs.C13Fmt Proofs.C13Examples Proofs.C13Names Proofs.C13Digits Proofs.C13Safe Proofs.C13Time Proofs.C13Date Proofs.C13OneWay.
-From V Require Model.Parsed Model.Format Model.Strftime Model.Time Spec.StrftimeDoc.
+  Proofs.Utf8 Proofs.Scan Proofs.C13 Proofs.C13Reads Proofs.C13Fmt Proofs.C13Examples Proofs.C13Names Proofs.C13Digits Proofs.C13Safe Proofs.C13Time Proofs.C13Date Proofs.C13OneWay Proofs.C13View Proofs.C13DateTime.
+From V Require Model.Parsed Model.Format Model.Strftime Model.Time Model.DateTime Spec.StrftimeDoc.
 Import ListNotations.
 Open Scope Z_scope.
 
@@ -259,6 +259,44 @@ Example C13_date_ymd_roundtrip_inhabited :
   Proofs.C08Sweeps.repr 262142 365 (Proofs.C08Sweeps.mkdate 262142 365).
 Proof. exact date_ymd_roundtrip_inhabited. Qed.
 Print Assumptions C13_date_ymd_roundtrip_inhabited.
+
+(** ** format_parse_roundtrip END TO END for NaiveDateTime with "%Y-%m-%dT%H:%M:%S" and
+    "%Y-%m-%d %H:%M:%S" (item lists [NDT_T_FMT] / [NDT_SP_FMT]; also spelled %FT%T / %F %T): for EVERY
+    in-range date and EVERY time of day, leap second on :59 included, parsing the formatted text
+    returns the value truncated to whole seconds (leap flag kept) -- through formatter, reader and
+    Parsed::to_naive_datetime_with_offset (date by C14's completeness theorem, time by C14's
+    to_naive_time completeness, the timestamp cross-check by the calendar lemmas). *)
+Theorem C13_ndt_roundtrip : forall y o v items,
+  Proofs.C08Sweeps.repr y o (Model.DateTime.nd_date v) -> valid_time (Model.DateTime.nd_time v) ->
+  In items [NDT_T_FMT; NDT_SP_FMT] ->
+  exists text,
+    Model.Format.write_items (Model.Format.fa_of_ndt v) items [] = Model.Format.fok text /\
+    (let+ p := parse Model.Parsed.parsed_new text items in
+     pr_of (Model.Parsed.to_naive_datetime_with_offset p 0)) = pok (trunc_ndt v).
+Proof. exact ndt_roundtrip. Qed.
+Print Assumptions C13_ndt_roundtrip.
+
+Theorem C13_ndt_parse_from_str : forall y o v fmt,
+  Proofs.C08Sweeps.repr y o (Model.DateTime.nd_date v) -> valid_time (Model.DateTime.nd_time v) ->
+  In fmt ndt_formats ->
+  exists text,
+    Model.Format.delayed_display (Model.Format.fa_of_ndt v) (Model.Strftime.sf_new fmt) = Model.Format.fok text /\
+    ndt_parse_from_str text fmt = pok (trunc_ndt v).
+Proof. exact ndt_sep_parse_from_str. Qed.
+Print Assumptions C13_ndt_parse_from_str.
+
+Example C13_ndt_roundtrip_inhabited :
+  Proofs.C08Sweeps.repr 2015 181 (Proofs.C08Sweeps.mkdate 2015 181) /\ valid_time (Model.Time.mk_time 86399 1999999999).
+Proof. exact ndt_roundtrip_inhabited. Qed.
+Print Assumptions C13_ndt_roundtrip_inhabited.
+
+(* the writes of the reader run through the real setters: whenever every recognised write puts a
+   field of the record [F] (within the setter's range) the setters succeed from any record below
+   [F] -- repeated and redundant items included -- and the result stays below [F] *)
+Theorem C13_writes_below_view : forall F ws p, Proofs.C14.extends p F -> Forall (w_ok F) ws ->
+  run_writes ws p = pok (apply_ws ws p) /\ Proofs.C14.extends (apply_ws ws p) F.
+Proof. exact run_view. Qed.
+Print Assumptions C13_writes_below_view.
 
 (* the entry points' lazily driven loops coincide with the loops over the yielded item list *)
 Theorem C13_parse_sf_loop_is_parse_items : forall items fuel p s st, yields st items -> (List.length items < fuel)%nat ->
